@@ -747,6 +747,31 @@ fn main() {
             let r = extra::record_visits(a.num("max-depth", 48) as usize, &widths, Path::new(&a.get("outdir", "work/visits")), a.num("shards", 4) as usize, extra_inputs);
             println!("{}", r);
         }
+        Some("outputs") => {
+            // plain outputs of the real formatter for a file of {id, text} at widths 0..=maxw (drift accounting)
+            let maxw = a.num("maxw", 24) as usize;
+            let tab = a.num("tab", 2) as usize;
+            let mut out = BufWriter::new(fs::File::create(a.get("out", "work/outputs.ndjson")).unwrap());
+            for line in fs::read_to_string(a.get("input", "")).unwrap().lines() {
+                let v: Value = serde_json::from_str(line).unwrap();
+                let text = v["text"].as_str().unwrap();
+                let perr = Source::detached(text).root().erroneous();
+                let res: Vec<Value> = (0..=maxw)
+                    .map(|w| match format_once(text, Cfg { w, tab, bl: 2, ro: false }) {
+                        Outcome::Ok(s) => {
+                            let mut ls: Vec<&str> = s.split('\n').collect();
+                            if ls.last() == Some(&"") {
+                                ls.pop();
+                            }
+                            json!(ls)
+                        }
+                        _ => json!(null),
+                    })
+                    .collect();
+                writeln!(out, "{}", json!({"id": v["id"], "perr": perr, "real": res})).unwrap();
+            }
+            out.flush().unwrap();
+        }
         Some("ranges") => cmd_ranges(&a),
         Some("hist") => cmd_hist(&a),
         Some("cli") => {
